@@ -137,9 +137,13 @@ def run_lf(case):
     from cogent3.maths.optimisers import ParameterOutOfBoundsError
 
     try:
+        sm = build_sm(case["spec"], case.get("bins"))
+    except ValueError as e:   # the constructor refuses this predicate set (not balanced, redundant, always true/false)
+        return {"refused": "ValueError: " + str(e)[:100], "stage": "constructor"}
+    try:
         return _run_lf(case)
     except ParameterOutOfBoundsError:
-        return {"skipped": "ParameterOutOfBoundsError"}
+        return {"refused": "ParameterOutOfBoundsError", "stage": "parameters"}
 
 
 def _run_lf(case):
@@ -159,15 +163,18 @@ def _run_lf(case):
     lf.set_alignment(aln)
     names = list(lf.get_param_names())
     out = {"structure": st, "param_names": names}
-    if case.get("mprobs") is not None and "psmprobs" in names:
-        for pos, v in enumerate(case["mprobs"]):
-            lf.set_param_rule("psmprobs", position=str(pos), value=numpy.array(v, float))
-    elif case.get("mprobs") is not None and "mprobs" in names:
-        mp = lf.get_motif_probs()
-        keys = list(mp.keys())
-        lf.set_motif_probs(dict(zip(keys, case["mprobs"])))
-    for p, v in case["params"].items():
-        lf.set_param_rule(p, value=v, is_constant=True)
+    # all values are put in place before anything is recalculated: the feasible region of GeneralStationary
+    # is about the whole vector, not about the intermediate states of setting it one value at a time
+    with lf.updates_postponed():
+        if case.get("mprobs") is not None and "psmprobs" in names:
+            for pos, v in enumerate(case["mprobs"]):
+                lf.set_param_rule("psmprobs", position=str(pos), value=numpy.array(v, float))
+        elif case.get("mprobs") is not None and "mprobs" in names:
+            mp = lf.get_motif_probs()
+            keys = list(mp.keys())
+            lf.set_motif_probs(dict(zip(keys, case["mprobs"])))
+        for p, v in case["params"].items():
+            lf.set_param_rule(p, value=v, is_constant=True)
     for e, t in (("a", t1), ("b", t2), ("c", t1 + t2), ("d", 0.0)):
         lf.set_param_rule("length", edge=e, value=t, is_constant=True)
     if bins:
@@ -223,9 +230,10 @@ def _run_lf(case):
     except Exception as e:  # noqa: BLE001
         out["direct_error"] = type(e).__name__ + ": " + str(e)[:100]
     if not case.get("light"):
-        rate0 = out["bins"]["rates"][0] if multi else 1.0
-        out["backends"] = backends(Q, t1 * rate0, pi, st["is_time_reversible"])
-        out["backends_t"] = t1 * rate0
+        # every back-end at the largest distance (length x rate) of this configuration
+        tb = (t1 + t2) * (max(out["bins"]["rates"]) if multi else 1.0)
+        out["backends"] = backends(Q, tb, pi, st["is_time_reversible"])
+        out["backends_t"] = tb
         if case.get("expm_settings"):
             alt = {}
             for s in case["expm_settings"]:
@@ -244,7 +252,7 @@ def run_pade(case):
     from cogent3.maths.matrix_exponentiation import PadeExponentiator
 
     A = numpy.array(case["A"], float)
-    return {"F": mat(PadeExponentiator(A)(1.0))}
+    return {"F": mat(PadeExponentiator(A)(case.get("t", 1.0)))}
 
 
 def run_taylor(case):
@@ -277,8 +285,17 @@ def run_rates(case):
     return {"rates": [float(x) for x in GammaDefn.calc(None, w, a)], "medians": med}
 
 
+def run_expm_all(case):
+    import numpy
+
+    Q = numpy.array(case["A"], float)
+    return {"backends": backends(Q, case["t"], None, False)}
+
+
 def run_case(case):
     k = case["kind"]
+    if k == "expm_all":
+        return run_expm_all(case)
     if k == "lf":
         return run_lf(case)
     if k == "pade":
